@@ -411,6 +411,17 @@ def reject(ctx, rn, fam, fs):
                         some_edge = rn.term(sw)['otherwise'] if strip_generics(cname(t)).endswith('is_some') else (t0[0] if t0 else None)
                         ok = some_edge is not None and all_paths_err(rn, some_edge)
     ctx.ob('REJECT', 'duplicate-definition', ok, short_loc(rn.span), 'names.insert(..) returning Some (duplicate fullname) returns Err: %s' % ok)
+    # only record, enum and fixed DEFINE a name: a `name` attribute on an array, a map or a primitive written as an object is
+    # an attribute like `doc` (ignored) - registering it would make unknown references resolve to that node, and a real
+    # definition of the same fullname a false "duplicate"
+    okn = False
+    detn = 'the registration is not under a test of the kind of type being defined'
+    if len(ins) == 1:
+        for r_ in enum_regions(rn, PM + 'raw::Type'):
+            if ins[0][0] in r_.blocks:
+                okn = set(r_.variants) <= {'Record', 'Enum', 'Fixed'} and bool(r_.variants)
+                detn = 'names.insert(..) happens for types %s' % sorted(r_.variants)
+    ctx.ob('REJECT', 'only-named-types-define-names', okn, short_loc(rn.span), detn)
     # missing attributes: count the distinct "Missing field" error sites by attribute
     attrs = {}
     import re as _re
